@@ -161,6 +161,10 @@ lemma rel_isoDelete (id) : Rel E R (isoDelete id) := by
   unfold isoDelete readStmt writeStmt
   sql_struct hs hm
 
+lemma rel_isoPropTypeOp (w) : Rel E R (isoPropTypeOp w) := by
+  unfold isoPropTypeOp writeStmt
+  sql_struct hs hm
+
 lemma rel_isoToDb (i am aa) : Rel E R (isoToDb i am aa) := by
   unfold isoToDb readStmt writeStmt
   have h1 := rel_adsToDb (E := E) (R := R) hs hm
@@ -183,6 +187,7 @@ lemma rel_opBody (op : Op) : Rel E R op.body := by
   | typeDelete tb t => exact rel_typeDelete hs hm tb t
   | isoToDb i am aa => exact rel_isoToDb hs hm i am aa
   | isoDelete id => exact rel_isoDelete hs hm id
+  | isoPropTypeOp w => exact rel_isoPropTypeOp hs hm w
 
 /-- the program `runOp` runs: the PRAGMA statement, then the body -/
 def prog (op : Op) : Sql Unit := do
